@@ -163,10 +163,62 @@ def report(ctx, ns, seed, form, sym, detail):
 def shards(tier, seed):
     n = 30000 if tier == 'quick' else 600000
     k = 16 if tier == 'quick' else 48
-    return [{'part': 'docs', 'n': n // k + 1, 'sub': i} for i in range(k)]
+    return [{'part': 'docs', 'n': n // k + 1, 'sub': i} for i in range(k)] + \
+        [{'part': 'scalars', 'n': 4000 if tier == 'quick' else 60000, 'sub': j} for j in range(2)]
+
+
+def scalar_part(spec, ctx):
+    """hszinc.parse_scalar(obj, mode=MODE_JSON, version=...) on values written by the independent writer: text form and
+    pre-decoded form (the latter must come back untouched, also when it is or contains a nested grid)."""
+    import hszinc
+    r = random.Random(ctx.seed * 1000003 + 550 + spec['sub'])
+    gen = D.Gen(r)
+    gen.zoneless = 0.3
+    for i in range(spec['n']):
+        ver = r.choice(['2.0', '3.0', '3.0'])
+        n = gen.value(ver == '3.0')
+        if not expressible(('list', (n,))):
+            continue
+        w = refjson.Writer(r)
+        obj = w.val(n, ver == '3.0')
+        for form in ('object', 'text'):
+            ctx.case('scalar', json.dumps(obj), ver, form, nontrivial=n[0] in ('list', 'dict', 'grid'))
+            ctx.count('scalar documents parsed')
+            try:
+                if form == 'object':
+                    if isinstance(obj, str) and len(obj) >= 2 and obj[0] in '"[{' and obj[-1] in '"]}':
+                        continue      # parse_scalar treats such a *string* as JSON text by design
+                    snap_text = json.dumps(obj)
+                    snap_ids = container_ids(obj)
+                    back = hszinc.parse_scalar(obj, mode=hs.JSON, version=ver)
+                    ctx.count('input snapshots compared')
+                    if json.dumps(obj) != snap_text or container_ids(obj) != snap_ids:
+                        ctx.violation({'part': 'scalar', 'format': 'json', 'position': 'scalar', 'kind': D.kind(n), 'symptom': 'input-mutated',
+                                       'features': ['ver=' + ver]},
+                                      'parse_scalar changed its pre-decoded argument from %s to %s' % (snap_text[:200], json.dumps(obj)[:200]),
+                                      {'scalar': D.enc(n), 'ver': ver})
+                        break
+                else:
+                    if not isinstance(obj, (list, dict, str)):
+                        continue
+                    back = hszinc.parse_scalar(json.dumps(obj), mode=hs.JSON, version=ver)
+                d = D.diff(n, hs.from_hs(back), True)
+                if d:
+                    ctx.violation({'part': 'scalar', 'format': 'json', 'position': 'scalar', 'kind': D.kind(n), 'symptom': d[1],
+                                   'features': sorted(D.features(n) | {'ver=' + ver, 'form=' + form})},
+                                  'parse_scalar(%s): %s %s' % (json.dumps(obj)[:200], d[0], d[2]), {'scalar': D.enc(n), 'ver': ver})
+                    break
+            except Exception as e:   # noqa
+                ctx.violation({'part': 'scalar', 'format': 'json', 'position': 'scalar', 'kind': D.kind(n), 'symptom': 'parse-raises:' + type(e).__name__,
+                               'features': sorted(D.features(n) | {'ver=' + ver, 'form=' + form})},
+                              'parse_scalar(%s) raised %s' % (json.dumps(obj)[:200], type(e).__name__), {'scalar': D.enc(n), 'ver': ver})
+                break
+    ctx.sample({'scalar_api': 'parse_scalar(obj | text, mode=MODE_JSON, version=...)', 'example': json.dumps(obj)[:200]})
 
 
 def run_shard(spec, ctx):
+    if spec['part'] == 'scalars':
+        return scalar_part(spec, ctx)
     r = random.Random(ctx.seed * 1000003 + 505 + spec['sub'])
     gen = D.Gen(r)
     gen.zoneless = 0.3
@@ -195,6 +247,22 @@ def run_shard(spec, ctx):
 
 
 def replay(case, ctx):
+    if 'scalar' in case:
+        import hszinc
+        n = D.dec(case['scalar'])
+        obj = refjson.Writer(None).val(n, case['ver'] == '3.0')
+        snap = json.dumps(obj)
+        try:
+            back = hszinc.parse_scalar(obj, mode=hs.JSON, version=case['ver'])
+            d = D.diff(n, hs.from_hs(back), True)
+            if json.dumps(obj) != snap:
+                d = ('', 'input-mutated', 'argument changed')
+        except Exception as e:   # noqa
+            d = ('', 'parse-raises:' + type(e).__name__, '')
+        if d:
+            ctx.violation({'part': 'scalar', 'format': 'json', 'position': 'scalar', 'kind': D.kind(n), 'symptom': d[1], 'features': []},
+                          'parse_scalar: %s' % (d[2],), case)
+        return
     ns = [D.dec(g) for g in case['ns']]
     sym, detail, art = judge_doc(ns, case['seed'], case.get('script'), case['form'])
     if sym:
